@@ -65,6 +65,75 @@ static std::string handle(const std::vector<std::string>& a) {
     }
     return r;
   }
+  // CA1 <type i32|u8|i64> <len> <dump> : copyArray(array, T* dst, len) into the middle of a guarded block
+  if (a[0] == "CA1" && a.size() == 4) {
+    JsonDocument doc;
+    DumpParser p(a[3]);
+    if (!p.build(doc.to<JsonVariant>())) return "bad-dump";
+    size_t len = std::stoul(a[2]);
+    const size_t G = 8;
+    auto run1 = [&](auto sample) -> std::string {
+      using T = decltype(sample);
+      std::vector<T> mem(len + 2 * G, (T)0x5A);
+      size_t n = copyArray(doc.as<JsonArrayConst>(), mem.data() + G, len);
+      std::string r = std::to_string(n) + " [";
+      for (size_t i = 0; i < len; i++) r += (i ? "," : "") + std::to_string((long long)mem[G + i]);
+      r += "]";
+      for (size_t i = 0; i < G; i++) if (mem[i] != (T)0x5A || mem[G + len + i] != (T)0x5A) { r += " GUARD-OVERWRITTEN"; break; }
+      return r;
+    };
+    if (a[1] == "i32") return run1((int)0);
+    if (a[1] == "u8") return run1((unsigned char)0);
+    if (a[1] == "i64") return run1((long long)0);
+    return "bad-type";
+  }
+  // CA2 <shape 3x2|2x4|1x1|4x3> <dump> : copyArray(array, int (&dst)[N1][N2]) inside a guarded struct
+  if (a[0] == "CA2" && a.size() == 3) {
+    JsonDocument doc;
+    DumpParser p(a[2]);
+    if (!p.build(doc.to<JsonVariant>())) return "bad-dump";
+    auto run2 = [&](auto& blk, size_t n1, size_t n2) -> std::string {
+      for (auto& g : blk.before) g = 0x5A5A5A5A;
+      for (auto& g : blk.after) g = 0x5A5A5A5A;
+      for (size_t i = 0; i < n1; i++) for (size_t j = 0; j < n2; j++) blk.dst[i][j] = 90;
+      size_t n = copyArray(doc.as<JsonArrayConst>(), blk.dst);
+      std::string r = std::to_string(n) + " [";
+      for (size_t i = 0; i < n1; i++) {
+        r += (i ? ",[" : "[");
+        for (size_t j = 0; j < n2; j++) r += (j ? "," : "") + std::to_string(blk.dst[i][j]);
+        r += "]";
+      }
+      r += "]";
+      for (auto g : blk.before) if (g != 0x5A5A5A5A) return r + " GUARD-OVERWRITTEN";
+      for (auto g : blk.after) if (g != 0x5A5A5A5A) return r + " GUARD-OVERWRITTEN";
+      return r;
+    };
+    if (a[1] == "3x2") { struct { int before[8]; int dst[3][2]; int after[8]; } b; return run2(b, 3, 2); }
+    if (a[1] == "2x4") { struct { int before[8]; int dst[2][4]; int after[8]; } b; return run2(b, 2, 4); }
+    if (a[1] == "1x1") { struct { int before[8]; int dst[1][1]; int after[8]; } b; return run2(b, 1, 1); }
+    if (a[1] == "4x3") { struct { int before[8]; int dst[4][3]; int after[8]; } b; return run2(b, 4, 3); }
+    return "bad-shape";
+  }
+  // CAS <N 1|2|4|8|16> <dump> : copyArray(variant, char (&dst)[N]) inside a guarded struct; prints the N bytes as hex
+  if (a[0] == "CAS" && a.size() == 3) {
+    JsonDocument doc;
+    DumpParser p(a[2]);
+    if (!p.build(doc.to<JsonVariant>())) return "bad-dump";
+    auto runs = [&](auto& blk, size_t n) -> std::string {
+      memset(&blk, 0x5A, sizeof blk);
+      size_t c = copyArray(doc.as<JsonVariantConst>(), blk.dst);
+      std::string r = std::to_string(c) + " " + hex(blk.dst, n);
+      for (char g : blk.before) if (g != 0x5A) return r + " GUARD-OVERWRITTEN";
+      for (char g : blk.after) if (g != 0x5A) return r + " GUARD-OVERWRITTEN";
+      return r;
+    };
+    if (a[1] == "1") { struct { char before[16]; char dst[1]; char after[16]; } b; return runs(b, 1); }
+    if (a[1] == "2") { struct { char before[16]; char dst[2]; char after[16]; } b; return runs(b, 2); }
+    if (a[1] == "4") { struct { char before[16]; char dst[4]; char after[16]; } b; return runs(b, 4); }
+    if (a[1] == "8") { struct { char before[16]; char dst[8]; char after[16]; } b; return runs(b, 8); }
+    if (a[1] == "16") { struct { char before[16]; char dst[16]; char after[16]; } b; return runs(b, 16); }
+    return "bad-size";
+  }
   // CMP <dump a> <dump b>
   if (a[0] == "CMP" && a.size() == 3) {
     JsonDocument da, db;
